@@ -352,7 +352,12 @@ class Interp:
                 cls, obj = self._callee_binding(e, tgt, sc)
                 return self._run_callee(tgt, cls, obj, e, S, sc)
         if isinstance(tgt, Cls):
-            return self._event("construct", e, S, sc)
+            S = self._event("construct", e, S, sc)
+            init = self.P.resolve(tgt, "__init__")
+            if init is not None and not init.cls.is_external and not init.is_abstract \
+                    and self.client.should_inline(init, e, ctx):
+                S = self._run_callee(init, tgt, ("new",), e, S, sc)
+            return S
         return self._event("call", e, S, sc)
 
     def _callee_binding(self, call: Optional[ast.Call], tgt: Func, sc: Scope):
